@@ -240,6 +240,12 @@ def meta_case(ctx, rng, big=False):
 
 # --------------------------------------------------------------------------- exhaustive alias pairs
 
+def impl_headers(rows):
+    import impl
+
+    return impl.headers_of(rows)
+
+
 def base_form():
     return {
         "survey": [
@@ -354,6 +360,65 @@ def exhaustive(ctx):
                 f1["survey"][1]["label"] = f2["survey"][1]["label"] = "a  b ‘q’"
                 compare(ctx, spell_tx.init_orig(spell.wb_from_form(f1)), spell_tx.init_orig(spell.wb_from_form(f2)),
                         [f"truth:settings:{col}:{plain[0]}->{v}"], "dict", tag="alias")
+                n += 1
+    # sheet-name case x presence state of each optional sheet (with rows / header only) x file channel
+    for sname, cols, row in (("settings", ["form_title", "form_id"], ["T", "fid"]), ("choices", ["list_name", "name", "label"], None),
+                             ("entities", ["dataset", "label"], ["people", "concat(${t}, 'x')"]),
+                             ("external_choices", ["list_name", "name"], ["ec", "a"])):
+        for with_rows in (True, False):
+            if row is None and not with_rows:
+                continue  # the base form's select needs its choices
+            for variant in (sname.capitalize(), sname.upper(), sname.title().replace("_", "_")):
+                for channel in ("md", "xlsx"):
+                    wb = spell_tx.init_orig(spell.wb_from_form(base_form()))
+                    if row is not None:
+                        wb["sheets"] = [x for x in wb["sheets"] if x["name"] != sname]
+                        wb["sheets"].append({"name": sname, "cols": list(cols), "rows": [list(row)] if with_rows else [], "orig": [2] if with_rows else []})
+                    wb2 = copy.deepcopy(wb)
+                    spell.sheet(wb2, sname)["name"] = variant
+                    if channel_ok(wb, channel) and channel_ok(wb2, channel):
+                        compare(ctx, wb, wb2, [f"sheet_case:{sname}->{variant}"], channel, tag="alias")
+                        n += 1
+    # translated columns: the unsuffixed column, the column suffixed with the default language and another
+    # language's column, in every order (survey label/hint/guidance_hint, choices label), with and without
+    # default_language naming the suffix
+    import itertools
+
+    for sname, col, ridx in (("survey", "label", 1), ("survey", "hint", 1), ("survey", "guidance_hint", 1), ("survey", "label", 0), ("choices", "label", 0)):
+        for dlang in ("English", None):
+            def build(order):
+                f = base_form()
+                if dlang:
+                    f["settings"][0]["default_language"] = dlang
+                for r_i, r in enumerate(f[sname]):
+                    r.pop(col, None)
+                vals = {col: "Plain", f"{col}::English": "Eng", f"{col}::French": "Fra"}
+                for h in order:
+                    f[sname][ridx][h] = vals[h]
+                    if sname == "choices":
+                        f[sname][1][h] = vals[h] + "2"
+                if col != "label" and sname == "survey":
+                    pass
+                f[sname + "_cols"] = [c for c in impl_headers(f[sname]) if c not in vals] + list(order)
+                return spell_tx.init_orig(spell.wb_from_form(f))
+
+            orders = list(itertools.permutations([col, f"{col}::English", f"{col}::French"]))
+            for o in orders[1:]:
+                compare(ctx, build(orders[0]), build(o), [f"col_perm:{sname}:{'|'.join(o)}"], "dict", tag="alias")
+                n += 1
+    # blank rows in the choices sheet above choices that draw a row-numbered message (unlabeled choice)
+    for k in range(0, 4):
+        for cnt in (1, 2):
+            for channel in ("dict", "xlsx"):
+                f = base_form()
+                f["choices"] += [{"list_name": "l", "name": "c"}, {"list_name": "l", "name": "d", "label": "D"}, {"list_name": "l", "name": "e"}]
+                wb = spell_tx.init_orig(spell.wb_from_form(f))
+                wb2 = copy.deepcopy(wb)
+                s2 = spell.sheet(wb2, "choices")
+                for _ in range(cnt):
+                    s2["rows"].insert(k, [None] * len(s2["cols"]))
+                    s2["orig"].insert(k, None)
+                compare(ctx, wb, wb2, [f"blank_row:choices:{k}x{cnt}"], channel, tag="alias")
                 n += 1
     ctx.notes["exhaustive_alias_cases"] = n
     ctx.notes["exhaustive"] = True
